@@ -140,3 +140,23 @@ Section Append.
     : list (list (step astate unit)) :=
     map (fun p => plugin_code mk (fst p) (snd p)) (combine (seq 0 (length dss)) dss).
 End Append.
+
+(* ---- plugin results as custom_linter.go collects them now: results[idx] is filled by goroutine idx only
+   (report := func(e) { results[idx] = append(results[idx], e) }), and after wg.Wait() the slots are
+   reported in annotation order.  A plugin either answers with its diagnostics or fails (not found, non-zero
+   exit, timeout, unreadable answer), which is reported as ONE diagnostic in its place. ---- *)
+Section Collect.
+  Variable D : Type.
+  Inductive outcome := Answered (ds : list D) | Failed (d : D).
+  Definition diags (o : outcome) : list D := match o with Answered ds => ds | Failed d => [d] end.
+  Definition slots := nat -> list D.
+  Definition slot_step (i : nat) (d : D) : step slots unit := Act (fun s => upd s i (s i ++ [d])).
+  Definition slot_thread (i : nat) (o : outcome) : list (step slots unit) := map (slot_step i) (diags o).
+  Definition collect_threads (os : list outcome) : list (list (step slots unit)) :=
+    map (fun p => slot_thread (fst p) (snd p)) (combine (seq 0 (length os)) os).
+  Definition slots0 : slots := fun _ => [].
+  (* for i := range results { for _, e := range results[i] { l.Error(e) } } *)
+  Definition collected (n : nat) (s : slots) : list D := flat_map s (seq 0 n).
+End Collect.
+Arguments Answered {D} ds.
+Arguments Failed {D} d.
